@@ -40,7 +40,7 @@ def run(chk: harness.Check):
         "AisleConf::ingredients_info. D2: on the MIR of aisle::parse, each HashSet::insert into used_categories / used_names is dominated by a "
         "HashSet::get of the same key expression in the same set, is unreachable from its found outcome (which builds the Duplicate* error), and the "
         "names/categories that are stored have the same trimming in their lineage as the keys that were checked. D3: calc_span returns "
-        "Span::new(offset_from(s.as_ptr(), input.as_ptr()), that + s.len()). D4: ingredients_info builds every IngredientInfo with common_name = names.first() of the iterated line, category = the enclosing category's name, and inserts it under the iterated name. D5: the format templates of aisle::write (decoded from MIR) put exactly the characters around category names and between names that aisle::parse strips and splits on, and end every line with a line feed. Necessary conditions; the write∘parse round trip itself is not decided.")
+        "Span::new(offset_from(s.as_ptr(), input.as_ptr()), that + s.len()). D4: ingredients_info builds every IngredientInfo with common_name = names.first() of the iterated line, category = the enclosing category's name, and inserts it under the iterated name. D6: the comment marker `//` is searched from the left. D5: the format templates of aisle::write (decoded from MIR) put exactly the characters around category names and between names that aisle::parse strips and splits on, and end every line with a line feed. Necessary conditions; the write∘parse round trip itself is not decided.")
     chk.trusted = ["tables/panics.toml, narrow_arith.toml, progress.toml", "HashSet::get/insert semantics"]
     ents = []
     for s in ("cooklang::aisle::parse", "cooklang::aisle::write", "cooklang::aisle::AisleConf::ingredients_info", "cooklang::aisle::AisleConf::reverse"):
@@ -60,6 +60,29 @@ def run(chk: harness.Check):
     d3_spans(chk, F)
     d4_lookup(chk, F)
     d5_writer_reader_tokens(chk, F)
+    d6_comment(chk, F)
+
+
+def d6_comment(chk, F):
+    """A comment runs from the FIRST `//` of a line to its end: whatever aisle::parse does with the marker "//" is a
+    forward search (split_once / find / split / splitn), never a search from the right — otherwise comment text containing
+    a second `//` (a URL) leaks into names and hides duplicates."""
+    p = F.funcs.get("cooklang::aisle::parse")
+    if p is None:
+        chk.fail("anchor-missing", "aisle::parse", "", "anchor-missing: aisle::parse not found")
+        return
+    uses = []
+    for g in F.region_funcs(p.key):
+        for b, t in g.calls():
+            for a in t.get("args", []):
+                c = a.get("const") or {}
+                if c.get("str") == "//":
+                    uses.append((g, b, (callee_key(t) or "").rsplit("::", 1)[-1]))
+    chk.floor("C11.D6-comment", "uses of the comment marker", len(uses), 1, f"{p.file}:{p.line}")
+    for g, b, m in uses:
+        chk.expect(m in ("split_once", "find", "split", "splitn", "split_terminator", "contains", "starts_with"), "C11.D6-comment", f"parse|{m}(\"//\")", g.where(b),
+                   f"the comment marker is located with `{m}`: a comment must start at the first `//` of the line",
+                   sample=f"{g.where(b)}: {m}(\"//\")")
 
 
 def d5_writer_reader_tokens(chk, F):
